@@ -1545,11 +1545,12 @@ theorem round_both (x y : Q) : absQ ((otRound x : Q) - (otRound y : Q)) ≤ absQ
   unfold absQ
   split <;> split <;> grind
 
-/-- **C10_outline_partial.**  What ufo2ft contributes to outlines and advances is the per-master numbers handed to varLib; under the
-    `VarModel` law (varLib's, a hypothesis) every coordinate interpolated at master `i`'s location is master `i`'s coordinate exactly, so
-    the instantiated font and the interpolatable master, which both round, differ by at most one unit.
-    NOT proved (external): that varLib.build_many / gvar / HVAR / CFF2 blends and the instancer satisfy the law — measured by the harness. -/
-theorem C10_outline_partial {L : Type} (M : VarModel L) (coords : List (List Q)) (hc : ∀ c ∈ coords, c.length = M.locs.length)
+/-- **C10_outline_of_law** (formerly `C10_outline_partial`).  For ANY variation model with the EXACT master-reproduction law, every
+    coordinate interpolated at master `i`'s location is master `i`'s coordinate, so two consumers that both round differ by at
+    most one unit.  The law with exact deltas is a theorem for the modelled VariationModel (`nAxis_law`, Props/C10Var.lean); what
+    varLib really stores are ROUNDED deltas: for those see `C10_outline_rounded` (Props/C10Var.lean), where the ≤ 1 is proved
+    from `getDeltas(…, round=otRound)` itself and only "the compiled tables evaluate this model" remains measured. -/
+theorem C10_outline_of_law {L : Type} (M : VarModel L) (coords : List (List Q)) (hc : ∀ c ∈ coords, c.length = M.locs.length)
     (i : Nat) (hi : i < M.locs.length) :
     ∀ c (hm : c ∈ coords), M.interp (M.locs[i]) c = c[i]'(by rw [hc c hm]; exact hi) ∧
       absQ ((otRound (M.interp (M.locs[i]) c) : Q) - (otRound (c[i]'(by rw [hc c hm]; exact hi)) : Q)) ≤ 1 := by
